@@ -8,6 +8,7 @@ from contracts import links as LK
 
 P_UNITS = [PUnit("modification-target-by-resid", M.CONTRACTS, M.REG),
            LUnit("rejected-link-changes-nothing", LK.lemma_veto_before_effect),
+           PUnit("default-terminal-targets", [M.TERMINI], M.REG_T),
            LUnit("modification-frame", M.lemma_mod_frame)]
 
 
